@@ -3,7 +3,8 @@ Model of `cascade.low.builders` (after the `fix:` commits of C19):
 
   * `TaskBuilder.from_callable`   `fromCallable` : signature ↦ input schema, defaults, output schema
   * `TaskBuilder.from_entrypoint` `fromEntrypoint`
-  * `TaskBuilder.with_values`     `withValues`   : `{**old, **new}` on keyword and positional statics
+  * `TaskBuilder.with_values`     `withValues`   : `{**old, **new}` on keyword and positional statics; ANY keyword name,
+                                                   also `self` (fix 0658fcc: the receiver is positional-only)
   * `JobBuilder.with_node/with_edge`
   * `JobBuilder.build`            `build`        : static type check, `get_edge_errors` branch by
                                                    branch, "input fed by more than one edge" (the
@@ -324,9 +325,12 @@ def step (env : TyEnv) (store : List Obj) (op : Op) : List Obj := store ++ [eval
 
 def run (env : TyEnv) (store : List Obj) (ops : List Op) : List Obj := ops.foldl (step env) store
 
-/-! ### the concrete universe used by the driver: builtin classes -/
+/-! ### the concrete universe used by the driver: builtin classes
+(14 names; among them only `bool < int` and everything `< object`; names that the namespace of builders.py resolves
+otherwise - `Callable`, `Iterable`, `Type`, exception classes - are not part of it and are not generated) -/
 
-def builtinTys : List Ty := ["int", "str", "float", "bool", "list", "tuple", "dict", "bytes", "complex", "object"]
+def builtinTys : List Ty := ["int", "str", "float", "bool", "list", "tuple", "dict", "bytes", "complex", "object",
+  "set", "frozenset", "bytearray", "range"]
 
 def builtinEnv : TyEnv where
   evaluable t := decide (t ∈ builtinTys)
